@@ -523,7 +523,11 @@ pub fn c10(p: &Params) {
                 match w {
                     Some(w) => {
                         log(Ev::OpBegin { th: i, op: "wake", arg: target as u64 });
-                        w.wake();
+                        if (made + i) % 2 == 1 {
+                            w.wake_by_ref();
+                        } else {
+                            w.wake();
+                        }
                         log(Ev::OpEnd { th: i, op: "wake", arg: target as u64, ok: true });
                         made += 1;
                         sp();
@@ -764,7 +768,12 @@ pub fn c11(p: &Params) {
                             let w = slot.lock().unwrap().take();
                             if let Some(w) = w {
                                 log(Ev::OpBegin { th: i, op: "wake", arg: k as u64 });
-                                w.wake();
+                                // both flavours (a waker's two entry points are separate code)
+                                if (k as u32 + i) % 2 == 0 {
+                                    w.wake_by_ref();
+                                } else {
+                                    w.wake();
+                                }
                                 log(Ev::OpEnd { th: i, op: "wake", arg: k as u64, ok: true });
                                 break;
                             }
